@@ -297,7 +297,11 @@ func newFixture(cfg Cfg) (*fixture, error) {
 		f.cleanup = cleanup
 		f.st = badgerstore.NewStore(db).SetPrefix(cfg.Prefix)
 	} else {
-		f.st = mockstore.NewStore()
+		ms := mockstore.NewStore()
+		// ids for records created through Write("") are generated: gen1, gen2, ...
+		ngen := 0
+		ms.NewID = func() string { ngen++; return storeID(cfg, "gen"+strconv.Itoa(ngen)) }
+		f.st = ms
 	}
 	h := store.Handler{Store: f.st}
 	if cfg.WrapNotFound {
@@ -315,7 +319,14 @@ func newFixture(cfg Cfg) (*fixture, error) {
 		pattern = "r.$xid.y"
 		h.Transformer = store.TransformFuncs(
 			func(rid string, pp map[string]string) string { return strings.TrimPrefix(pp["xid"], "x") },
-			func(id string, v interface{}, p res.Pattern) string { return string(p.ReplaceTag("xid", "x"+id)) },
+			func(id string, v interface{}, p res.Pattern) string {
+				// (a transformer that derives the resource id from the value has nothing to go
+				// on without one: the handler always has the served value at hand)
+				if v == nil {
+					return ""
+				}
+				return string(p.ReplaceTag("xid", "x"+id))
+			},
 			customTransform(cfg),
 		)
 	case "none":
@@ -504,7 +515,7 @@ func (f *fixture) initSeed(m Mut) error {
 
 func (f *fixture) mutate(tx store.WriteTxn, m Mut) error {
 	switch m.K {
-	case "create":
+	case "create", "createnew":
 		return tx.Create(storedValue(f.cfg, m.V))
 	case "update":
 		return tx.Update(storedValue(f.cfg, m.V))
@@ -556,13 +567,20 @@ func run(c Case) (msg string, nontrivial bool) {
 		var evAfter []string // per event: the served representation right after its step
 		var tx store.WriteTxn = nopTxn{}
 		if !isInit {
-			tx = f.st.Write(storeID(f.cfg, id))
+			wid := storeID(f.cfg, id)
+			if c.Muts[i].K == "createnew" {
+				wid = "" // the store generates the id (which the generator has predicted)
+			}
+			tx = f.st.Write(wid)
 		}
 		for k := i; k < j; k++ {
 			m := c.Muts[k]
 			prevText, existed := model[m.ID]
 			mark := f.conn.LogLen()
 			var err error
+			if m.K == "createnew" {
+				m.K = "create" // (the transaction was opened without id; the store generates m.ID)
+			}
 			okWanted := (m.K == "create") != existed
 			if isInit {
 				err = f.initSeed(m)
@@ -825,8 +843,12 @@ func genCase(storeKind string) *rapid.Generator[Case] {
 		c := Case{Cfg: genCfg(storeKind).Draw(t, "cfg")}
 		n := rapid.IntRange(1, 12).Draw(t, "nmut")
 		var last = map[string]string{}
+		ngen := 0
 		for i := 0; i < n; i++ {
-			m := Mut{K: rapid.SampledFrom([]string{"create", "update", "update", "update", "delete"}).Draw(t, "k"), ID: rapid.SampledFrom([]string{"1", "2", "3"}).Draw(t, "id")}
+			m := Mut{K: rapid.SampledFrom([]string{"create", "update", "update", "update", "delete"}).Draw(t, "k"), ID: rapid.SampledFrom([]string{"1", "2", "3", "gen1", "gen2"}).Draw(t, "id")}
+			if storeKind == "mock" && m.K == "create" && strings.HasPrefix(m.ID, "gen") {
+				m.ID = "1" // (gen ids only come into being through the store)
+			}
 			if m.K != "delete" {
 				switch rapid.IntRange(0, 5).Draw(t, "vk") {
 				case 0:
@@ -844,10 +866,15 @@ func genCase(storeKind string) *rapid.Generator[Case] {
 				}
 				last[m.ID] = m.V
 			}
+			if storeKind == "mock" && m.K == "create" && !c.Cfg.PlainStrings && rapid.IntRange(0, 3).Draw(t, "generated") == 0 {
+				// created through Write(""): the store generates the id (gen1, gen2, ... in order)
+				ngen++
+				m.K, m.ID = "createnew", "gen"+strconv.Itoa(ngen)
+			}
 			if storeKind == "badger" && m.K == "create" && rapid.IntRange(0, 3).Draw(t, "asinit") == 0 {
 				m.K = "init" // the id is offered as a seed to Store.Init instead
 			}
-			if i > 0 && c.Muts[i-1].ID == m.ID && m.K != "init" {
+			if i > 0 && c.Muts[i-1].ID == m.ID && m.K != "init" && m.K != "createnew" {
 				m.SameTxn = rapid.IntRange(0, 3).Draw(t, "sametxn") == 0
 			}
 			c.Muts = append(c.Muts, m)
